@@ -4,9 +4,9 @@ from vlib import core, gen, freelist
 
 PROP = "C01"
 META = {
-    "technique": "Coq proof over an access-granular model of bufferList.pop/push/update/recycleBuffers: refutation of the full statement by a computed ABA schedule, ownership theorems for ABA-free executions; tie: generated offsets/flags/retry bound + real instrumented pop/push under a controlled scheduler compared access by access with the model",
-    "level_text": "The full ownership statement is refuted in Coq (C01_refuted: ABA in bufferList.pop, replayed on the real code on every run, known finding); C01_held_bounded holds for every schedule. Every explored schedule of the real instrumented code is compared access by access with the model and judged by ownership / bounds / foreign-write / payload oracles.",
-    "level_note": "Trusted: coqc kernel; sequential consistency; go/verisched instrumenter + scheduler; schedules sampled (random, sticky, systematic single pre-emption) plus the corpus of explicit schedules.",
+    "technique": "Coq proof over an access-granular model of bufferList.pop/push/update/recycleBuffers (any number of threads, one shared access per step): structural inductive invariant for every schedule without a stale head-CAS, unconditional for a single allocating thread; sequential refinement to a FIFO; permutation invariant of the multi-class manager; refutation of the unrestricted statement by a computed ABA schedule. Tie: generated offsets/flags/retry bound (G), access-by-access trace comparison of the real instrumented code under a controlled scheduler (S), differential run of the real bufferManager over several classes (D)",
+    "level_text": "C01_partial_aba_free* / C01_store_target_exact hold for any thread count, all programs of alloc/free/update and every schedule that contains no stale head-CAS (a decidable predicate of the run); C01_single_allocator needs no such hypothesis; C01_sequential_functional refines a single thread to a FIFO spec; C01_manager_no_double_ownership covers allocShmBuffer/allocShmBuffers/recycleBuffer over any list of size classes (equal sizes included); C01_held_bounded holds in every execution. The unrestricted ownership statement is REFUTED in Coq (C01_refuted): the ABA schedule is replayed on the real bufferList on every run and is a known finding. 400+ schedules of the real instrumented code per run agree with the model access by access; ownership / bounds / foreign-write / payload oracles run on every case.",
+    "level_note": "Trusted: coqc kernel; sequential consistency of the instrumented accesses; go/verisched instrumenter + scheduler (self-tested on the repo's own tests); schedules sampled (random, sticky, systematic single pre-emption, directed) plus the corpus of explicit schedules; FreeChain (recycleBuffers) programs are covered by the correspondence and the oracles, not by the concurrent theorems; payload bytes are not modelled.",
 }
 
 
